@@ -273,8 +273,9 @@ func Resolve(p *an.Prog) *Anchors {
 		an.AllInstrs(f, func(in ssa.Instruction) {
 			// the summary stored through a setter helper shared by both builders: n.setMethodIndex(index)
 			if call := an.CallOf(in); call != nil {
-				if g := an.StaticCallee(call); g != nil && isSummarySetter(a, g) && len(call.Args) >= 1 {
-					switch rap := an.AP(call.Args[0]); {
+				if g := an.StaticCallee(call); g != nil && isSummarySetter(a, g) && len(call.Args) == len(g.Params) {
+					nodeIdx, _, _ := summarySetterArgs(a, g)
+					switch rap := an.AP(call.Args[nodeIdx]); {
 					case recvIsNode && rap == "recv":
 						switch {
 						case rangesOver(f, "recv."+a.FHandlers):
@@ -561,17 +562,46 @@ func namedOf(t types.Type) *types.Named {
 // isSummarySetter: a node method with one integer parameter that stores a value computed from that parameter into
 // the receiver's method summary (and does not read the handler map itself).
 func isSummarySetter(a *Anchors, g *ssa.Function) bool {
-	if g == nil || len(g.Blocks) == 0 || g.Signature.Recv() == nil || !isPtrToNamed(g.Signature.Recv().Type(), a.NodeT) || len(g.Params) != 2 {
-		return false
+	_, _, ok := summarySetterArgs(a, g)
+	return ok
+}
+
+// summarySetterArgs: which argument of a summary setter is the node and which the value. The setter is a method of
+// the node (n.setMethodIndex(index)) or any function of the tree package that is handed the node
+// (tree.setMethodIndex(n, index)): one node parameter, one integer parameter, a store into that node's summary, and
+// no look at the handler map (that would make it a builder).
+func summarySetterArgs(a *Anchors, g *ssa.Function) (nodeIdx, valIdx int, ok bool) {
+	if g == nil || len(g.Blocks) == 0 || len(g.Params) < 2 || len(g.Params) > 3 {
+		return 0, 0, false
 	}
-	if b, ok := g.Params[1].Type().Underlying().(*types.Basic); !ok || b.Info()&types.IsInteger == 0 {
-		return false
+	nodeIdx, valIdx = -1, -1
+	for i, p := range g.Params {
+		if isPtrToNamed(p.Type(), a.NodeT) {
+			if nodeIdx >= 0 {
+				return 0, 0, false
+			}
+			nodeIdx = i
+		}
+		if b, isB := p.Type().Underlying().(*types.Basic); isB && b.Info()&types.IsInteger != 0 {
+			if valIdx >= 0 {
+				return 0, 0, false
+			}
+			valIdx = i
+		}
 	}
+	if nodeIdx < 0 || valIdx < 0 {
+		return 0, 0, false
+	}
+	// nothing else is handed over, except the tree as the receiver
+	if len(g.Params) == 3 && (g.Signature.Recv() == nil || !isPtrToNamed(g.Params[0].Type(), a.TreeT)) {
+		return 0, 0, false
+	}
+	nodeAP := an.AP(g.Params[nodeIdx])
 	stores := false
 	an.AllInstrs(g, func(in ssa.Instruction) {
-		if st, ok := in.(*ssa.Store); ok && an.AP(st.Addr) == "recv."+a.FSummary {
+		if st, isSt := in.(*ssa.Store); isSt && an.AP(st.Addr) == nodeAP+"."+a.FSummary {
 			stores = true
 		}
 	})
-	return stores && !mentions(g, "recv."+a.FHandlers)
+	return nodeIdx, valIdx, stores && !mentions(g, nodeAP+"."+a.FHandlers)
 }
